@@ -199,6 +199,12 @@ def copying_calls(u):
         ("unyt.allclose_units", lambda a, b: unyt.array.allclose_units(a.q, b.q)), ("np.vstack", lambda a, b: np.vstack([np.atleast_1d(a.q), np.atleast_1d(b.q)])),
         ("list of quantities", lambda a, b: unyt.unyt_array([a.q.ravel()[0] if a.q.ndim else a.q, (b.q.ravel()[0] if b.q.ndim else b.q).to(other)])),
         ("pickle", lambda a, b: __import__("pickle").dumps(a.q)), ("deepcopy", lambda a, b: __import__("copy").deepcopy(a.q)),
+        # targets given as Unit objects, incl. one that lives in another registry (it is an input too: see _guards)
+        ("to(Unit object)", lambda a, b: a.q.to(Unit(other))), ("to(Unit of another registry)", lambda a, b: a.q.to(_guard_unit(other))),
+        ("in_units(Unit of another registry)", lambda a, b: a.q.in_units(_guard_unit(other))), ("to_value(Unit of another registry)", lambda a, b: a.q.to_value(_guard_unit(other))),
+        ("a+b(other registry)", lambda a, b: a.q + (b.q.v * _guard_unit(u)) if not a.q.units.base_offset else None),
+        ("to(equal-scale spelling)", lambda a, b: a.q.to({"N*m": "J", "kg*m**2/s**2": "J", "Hz*s*km": "km", "m*s/s": "m", "keV": "1000*eV"}.get(u, u))),
+        ("in_units(same)", lambda a, b: a.q.in_units(u)), ("in_base(own system)", lambda a, b: a.q.in_base("mks").in_base("mks")),
     ]
     # equivalence routes: copying forms after which the *input* must be intact
     if u in ("K",):
@@ -216,6 +222,32 @@ def copying_calls(u):
     return calls
 
 
+_GUARDS = {}
+
+
+def _guard_unit(ustr):
+    """a Unit of a *second* registry, created once; what is recorded about it must survive every call it is passed to"""
+    from unyt import Unit
+    from unyt.unit_registry import UnitRegistry
+
+    if "reg" not in _GUARDS:
+        _GUARDS["reg"] = UnitRegistry()
+        _GUARDS["units"] = {}
+    if ustr not in _GUARDS["units"]:
+        g = Unit(ustr, registry=_GUARDS["reg"])
+        _GUARDS["units"][ustr] = (g, unit_facts(g))
+    return _GUARDS["units"][ustr][0]
+
+
+def _guards_changed():
+    for ustr, (g, facts) in _GUARDS.get("units", {}).items():
+        if g.registry is not _GUARDS["reg"]:
+            return ustr, "registry rebound"
+        if unit_facts(g) != facts:
+            return ustr, "facts changed"
+    return None
+
+
 def run_copying(c, part, out, which):
     calls = copying_calls(c["unit"])
     for k in which:
@@ -225,17 +257,36 @@ def run_copying(c, part, out, which):
         a = Operand(c["vals"], c["unit"], c["dtype"])
         b = Operand(c["vals2"], c["unit"], c["dtype"])
         part.ev()
+        res = None
         try:
-            fn(a, b)
+            res = fn(a, b)
             status = "returned"
         except Exception:
             status = "raised"
         part.nt((name, c["unit"], status))
+        bad = False
         for pos, op in (("first", a), ("second", b)):
             diffs = op.changed()
             if diffs:
                 out.append((f"C18:copying-call-mutated-input:{name}", {"unit": c["unit"], "dtype": c["dtype"], "operand": pos, "status": status, "diff": diffs}))
+                bad = True
                 break
+        g = _guards_changed()
+        if g:
+            out.append((f"C18:copying-call-mutated-input:{name}:unit-object-argument", {"unit": c["unit"], "argument": g[0], "what": g[1]}))
+            _GUARDS.clear()
+            bad = True
+        # "returns a new object": what the caller then does to the result is none of the input's business
+        if not bad and isinstance(res, np.ndarray) and res.size and res.flags.writeable:
+            try:
+                np.asarray(res)[...] = 0
+            except Exception:
+                continue
+            for pos, op in (("first", a), ("second", b)):
+                diffs = op.changed()
+                if diffs:
+                    out.append((f"C18:result-shares-memory-with-input:{name}", {"unit": c["unit"], "dtype": c["dtype"], "operand": pos, "diff": diffs}))
+                    break
 
 
 # -------------------------------------------------------------------- successful in-place twins
